@@ -922,6 +922,9 @@ fn main() {
         "wire-sim {}: {} packets, {} executions, {} distinct non-trivial, {} violation signature(s), {} known, {:.1}s",
         prop, st.cases, st.execs, distinct, violations, known_hits, wall
     );
+    if violations > 0 {
+        std::process::exit(1);
+    }
     // coverage floor: never pass vacuously
     if prop == "C07" && st.ptr.pointers < 100 {
         eprintln!("harness error: insufficient coverage (pointers checked = {})", st.ptr.pointers);
